@@ -278,6 +278,23 @@ def differential(tier: str, seed: int) -> dict:  # noqa: C901, PLR0912, PLR0915
             if grules.get(nm) != want and len(bad) < 40:
                 bad.append({"text": text, "what": f"rule {nm} of a printed AST differs", "want": str(want)[:300], "got": str(grules.get(nm))[:300], "generator": "printed AST"})
         run(text, "printed AST vs meta reader")
+    # (c') systematic trivia placement: each kind of trivia at every token boundary of compact texts covering every production
+    compact = [
+        'a={b}', 'a=_{b}', 'a=@{"s"}', 'a=${^"s"}', 'a=!{b~c|d}', "a={'a'..'z'}", 'a={#t=b}', 'a={#t=!(b)*}', 'a={!&b}', 'a={b*?+}', 'a={b{1}}', 'a={b{1,}}', 'a={b{,2}}',
+        'a={b{1,2}}', 'a={(b|c)~d}', 'a={|b|c}', 'a={PUSH(b)}', 'a={PUSH_LITERAL("s")}', 'a={PEEK[1..2]}', 'a={PEEK[..]}', 'a={PEEK[-1..]}', 'a={PEEK~POP~DROP~PEEK_ALL~POP_ALL}',
+        '//!d\na={b}', '///d\na={b}', 'a={b}\n///d', 'a={b}c={d}', 'a={"\\n\\x41\\u{41}"}', "a={'\\n'..'\\u{7A}'}", 'a={ANY~EOI~SOI}', 'a={b}//c', 'a={b}/*c*/',
+    ]
+    trivia = [" ", "\n", "\r\n", "\t", "/*c*/", "//c\n", "/**/", "\r"]
+    for text in compact:
+        toks = _LEX.findall(text)
+        for i in range(len(toks) + 1):
+            for tv in trivia:
+                run("".join(toks[:i]) + tv + "".join(toks[i:]), "trivia placement")
+        # and inside multi-character tokens (must split them)
+        for i, t in enumerate(toks):
+            if len(t) > 1 and not t.isspace():
+                for cut in range(1, len(t)):
+                    run("".join(toks[:i]) + t[:cut] + " " + t[cut:] + "".join(toks[i + 1 :]), "trivia inside a token")
     # (d) the bundled grammars and single-token mutations of them
     root = ms.repo_root()
     files = sorted(list((root / "tests" / "grammars").glob("*.pest")) + list((root / "examples").glob("*/*.pest")))
@@ -307,7 +324,7 @@ def differential(tier: str, seed: int) -> dict:  # noqa: C901, PLR0912, PLR0915
         "kind": "bounded stand-in (Parser.from_grammar vs the meta-grammar interpreted by the reference PEG interpreter, and vs printed random ASTs)",
         "evaluations": n,
         "by_generator": kinds,
-        "bound": "token strings <= 2 (3) tokens exhaustively over a 67-token alphabet, random 3..8; grammar pieces <= 3 (4); printed random ASTs of depth <= 4; the bundled grammars with single-token mutations and truncations",
+        "bound": "token strings <= 2 (3) tokens exhaustively over a 67-token alphabet, random 3..8; grammar pieces <= 3 (4); printed random ASTs of depth <= 4; 8 kinds of trivia at every token boundary (and a blank inside every token) of 31 compact texts covering every production; the bundled grammars with single-token mutations and truncations",
         "violation": bool(bad),
         "details": bad[:5],
     }
